@@ -34,6 +34,7 @@ type snapRec struct {
 
 type pendingRestore struct {
 	rec *snapRec
+	seq int // its number among the completed restores (0: has not released the lock yet)
 }
 
 var errStream = errors.New("dsim: injected stream failure")
@@ -137,7 +138,9 @@ func (r *Run) execSnapshot(t *Task, idx int, tx *TxPlan) {
 		}
 		data, err := os.ReadFile(actual)
 		if err != nil {
-			r.s.HarnessError("read snapshot: " + err.Error())
+			// Snapshot() reported success and named this file
+			r.snapViolation("snapshot-file-vanished", "Snapshot() returned %s, which cannot be read: %v", filepath.Base(actual), err)
+			r.s.Abort("snapshot file unreadable")
 			panic(abortSig{})
 		}
 		rec.id, rec.data, rec.path = id, data, actual
@@ -208,7 +211,10 @@ func (r *Run) execRestore(t *Task, idx int, tx *TxPlan) {
 			}
 		}()
 		r.mu.Lock()
-		r.restoring = &pendingRestore{rec: rec}
+		if r.restoring == nil {
+			r.restoring = map[string]*pendingRestore{}
+		}
+		r.restoring[t.Name] = &pendingRestore{rec: rec}
 		r.mu.Unlock()
 		if tx.Arg == "bytes" && failAt < 0 {
 			r.db.RestoreSnapshot(rec.data)
@@ -217,7 +223,8 @@ func (r *Run) execRestore(t *Task, idx int, tx *TxPlan) {
 		}
 	}()
 	r.mu.Lock()
-	r.restoring = nil
+	mine := r.restoring[t.Name]
+	delete(r.restoring, t.Name)
 	var paths []string
 	for _, s := range r.snaps {
 		if s.path != "" {
@@ -255,7 +262,12 @@ func (r *Run) execRestore(t *Task, idx int, tx *TxPlan) {
 		r.snapViolation("snapshot-id-error", "GetSnapshotId failed after restore: %v", err)
 	}
 	want := rec.meta.SnapshotId
-	if strOr(got) != strOr(want) || (got == nil) != (want == nil) {
+	r.mu.Lock()
+	overtaken := mine == nil || mine.seq != r.restores // another restore completed after this one
+	r.mu.Unlock()
+	if overtaken {
+		r.probe("restore_overtaken_by_another")
+	} else if strOr(got) != strOr(want) || (got == nil) != (want == nil) {
 		r.snapViolation("snapshot-id-mismatch", "after restoring snapshot %q GetSnapshotId() = %q", strOr(want), strOr(got))
 	}
 	r.probe("restore_done")
@@ -263,7 +275,7 @@ func (r *Run) execRestore(t *Task, idx int, tx *TxPlan) {
 }
 
 // onRestore is called from the reloadLock hook points inside RestoreFromReader.
-func (r *Run) onRestore(point string) {
+func (r *Run) onRestore(point, task string) {
 	r.mu.Lock()
 	defer r.mu.Unlock()
 	switch point {
@@ -275,7 +287,7 @@ func (r *Run) onRestore(point string) {
 			r.abortFromHook = true
 		}
 	case "reload.unlock.after":
-		p := r.restoring
+		p := r.restoring[task]
 		if p == nil {
 			return
 		}
@@ -285,6 +297,7 @@ func (r *Run) onRestore(point string) {
 		r.expectRestored = p.rec
 		r.forceChk = true
 		r.restores++
+		p.seq = r.restores
 	}
 }
 
@@ -366,9 +379,12 @@ func (r *Run) execTimeline(t *Task, modeName string) {
 }
 
 func (r *Run) snapFinal() {
-	if r.restoreListenerCalls != r.restores {
-		r.viols = append(r.viols, Violation{Props: []string{"C17"}, Oracle: "snapshot", Sig: "restore-listener-count",
-			Detail: fmt.Sprintf("%d restore(s) completed, restore listener ran %d time(s)", r.restores, r.restoreListenerCalls)})
+	for k, n := range r.restoreListenerN {
+		if n != r.restores {
+			r.viols = append(r.viols, Violation{Props: []string{"C17"}, Oracle: "snapshot", Sig: "restore-listener-count",
+				Detail: fmt.Sprintf("%d restore(s) completed, restore listener #%d (of 3, all registered before the first restore) ran %d time(s)", r.restores, k, n)})
+			break
+		}
 	}
 }
 
